@@ -7,6 +7,7 @@ motivated each.
 from __future__ import annotations
 
 import ast
+import dataclasses
 from typing import List, Optional
 
 from ..astx import TRUE, calls_in, canon, f_atoms, f_show, implies, linear, single_assign_value, src, walk_no_nested
@@ -566,6 +567,23 @@ def gen_undef(ctx: Ctx):
             continue
         handlers = {h.name for n in walk_no_nested(fn) if isinstance(n, ast.Try) for h in n.handlers if h.name}
         never = [g for g in lin.stmts if isinstance(g.node, ast.Expr) and isinstance(g.node.value, ast.Call) and src(g.node.value.func) in ("assert_never", "typing.assert_never")]
+        # `while True:` is left only through a `break`: a name assigned before every break of the loop (under a guard the
+        # break's guard implies) is assigned after the loop, although the assignment is "inside a loop the read is outside of"
+        for lp in [x for x in lin.stmts if isinstance(x.node, ast.While) and isinstance(x.node.test, ast.Constant) and x.node.test.value and not x.node.orelse]:
+            inside = [x for x in lin.stmts if lp.node in x.loops]
+            breaks = [x for x in inside if isinstance(x.node, ast.Break) and x.loops[-1] is lp.node]
+            if not breaks:
+                continue
+            sure = None
+            for b in breaks:
+                here = set()
+                for d, names in defs:
+                    if lp.node in d.loops and d.index < b.index and tuple(b.loops[: len(d.loops)]) == tuple(d.loops) and implies(b.guard, d.guard):
+                        here |= names
+                sure = here if sure is None else sure & here
+            if sure:
+                end = max(x.index for x in inside)
+                defs.append((dataclasses.replace(lp, index=end), set(sure)))
         reported = set()
         for g in lin.stmts:
             for e in _own_exprs(g.node):
